@@ -6,7 +6,7 @@
    covered (the C14 clause) + repaired; it is the inductive invariant. *)
 From Coq Require Import ZArith List Bool Lia.
 From OG Require Import C16.Model C16.Wf C16.Proofs C16.ProofsCmd C16.ProofsSg C16.ProofsNew C16.ProofsInv C16.ProofsRun C16.ProofsIds C16.Order
-  C16.Expand C16.ProofsExpand.
+  C16.Expand C16.ProofsExpand C16.ProofsExpandWf.
 Import ListNotations.
 Open Scope Z_scope.
 
@@ -157,6 +157,31 @@ Print Assumptions C16_expand_ids_fresh.
 Theorem C16_expand_counters_monotone : forall c, 0 <= ptnum c -> counters_le c (expand_groups c).
 Proof. exact expand_counters_le. Qed.
 Print Assumptions C16_expand_counters_monotone.
+
+(* ExpandGroups preserves the whole invariant: well-formedness (new shards and indexes get unique ids below the raised counters,
+   name partitions that exist and an index of their own policy), the C14 clause (the index group looked up or created for a shard
+   does not end before the shard's group) and the one-cell shape of every group *)
+Theorem C16_expand_preserves_good : forall c, good c -> good (expand_groups c).
+Proof. exact good_expand_groups. Qed.
+Print Assumptions C16_expand_preserves_good.
+
+(* hence every command of the correspondence - the 24 of [cmd], the expansion, a node join on a store that expands - preserves it *)
+Theorem C16_good_preserved_x : forall c x, good c -> env_okx c x -> good (fst (applyx true true c x)).
+Proof. exact good_stepx. Qed.
+Print Assumptions C16_good_preserved_x.
+
+Theorem C16_wf_every_prefix_x : forall xs k per sc cl sf, env_runx (init_cat_o per sc cl sf true true) xs ->
+  wf (runx (init_cat_o per sc cl sf true true) (firstn k xs)) /\ covered (runx (init_cat_o per sc cl sf true true) (firstn k xs)).
+Proof.
+  intros xs k per sc cl sf E. destruct (good_runx_prefix xs _ k (good_init per sc cl sf) E) as (W & _ & C & _). split; assumption.
+Qed.
+Print Assumptions C16_wf_every_prefix_x.
+
+Example C16_example_x :
+  let xs := [Base (CreateNode 1 1); Base (CreateDb 1 1 0 HOUR); Base (CreateMst 1 1 1); Base (CreateSg 1 1 1700042400000000005 0);
+             XJoin 2 2; Base (CreateSg 1 1 1700053200000000000 1); XJoin 3 3; XExpand; Base (PruneSg 2); Base Restore] in
+  env_runx (init_cat_rep 2 true) xs /\ wf_b (runx (init_cat_rep 2 true) xs) = true /\ covered_b (runx (init_cat_rep 2 true) xs) = true.
+Proof. cbv zeta. split; [apply env_runx_b_sound; vm_compute; reflexivity | vm_compute; split; reflexivity]. Qed.
 
 (* non-vacuity: the environment hypotheses are satisfiable on a run that creates, alters, renames, deletes, revives and prunes *)
 Definition example_run : list cmd :=
